@@ -60,6 +60,10 @@ def gen_cfg(rng, real=False):
     h5 = {"data": pick(), "coordinates": pick(), "velocities": pick(), "forces": pick()}
     if eng in ("sh", "sh_model"):
         h5["nonadiabatic"] = rng.choice([0, 1, 2, 3, 5, S + 3])
+    if rng.random() < 0.25:
+        h5["write_mo"] = 1
+    if eng in ("exc_basic", "exc_xl", "xl_esmd") and rng.random() < 0.3:
+        h5["transition_properties"] = 1
     if eng in ("exc_basic", "exc_xl", "xl_esmd"):
         h5["transition_density_matrices"] = rng.choice([0, 1, 2, 3, 5, S + 3])
     nmol = len(cfg["batch"])
@@ -178,7 +182,10 @@ def _execute(record, root):
 
     # ---- label and value oracles per selected molecule ------------------------------------------
     groups = {
-        "data": ("data/steps", ["data/thermo/T", "data/thermo/Ek", "data/thermo/Ep", "data/properties/ground_dipole"]),
+        "data": (
+            "data/steps",
+            ["data/thermo/T", "data/thermo/Ek", "data/thermo/Ep", "data/properties/ground_dipole", "data/mo/homo_lumo_gap", "data/excitation/transition_dipole", "data/excitation/oscillator_strength"],
+        ),
         "coordinates": ("coordinates/steps", ["coordinates/values"]),
         "velocities": ("velocities/steps", ["velocities/values"]),
         "forces": ("forces/steps", ["forces/values"]),
